@@ -441,9 +441,11 @@ func genC06(p *plan.Plan, r *plan.Rng, tier string) {
 			s.Steps = append(s.Steps, plan.Step{Op: "dec_decode", H: "d", T: t}, plan.Step{Op: "dec_token", H: "d"}, plan.Step{Op: "dec_more", H: "d"})
 			p.Sessions = append(p.Sessions, s)
 		}
-		s := plan.Session{ID: id("P")}
-		s.Steps = append(s.Steps, plan.Step{Op: "path_new", H: "p", S1: "$.a.a.a"}, plan.Step{Op: "path_extract", H: "p", Bomb: bm}, plan.Step{Op: "path_unmarshal", H: "p", Bomb: bm, T: "Iface"})
-		p.Sessions = append(p.Sessions, s)
+		for _, pt := range []string{"$.a.a.a", "$..a", "$..x", "$[0][0][0]", "$[*][*]", "$..a[0]"} {
+			s := plan.Session{ID: id("P")}
+			s.Steps = append(s.Steps, plan.Step{Op: "path_new", H: "p", S1: pt}, plan.Step{Op: "path_extract", H: "p", Bomb: bm}, plan.Step{Op: "path_unmarshal", H: "p", Bomb: bm, T: "Iface"})
+			p.Sessions = append(p.Sessions, s)
+		}
 		return
 	}
 	if idx%5 == 4 {
@@ -477,6 +479,8 @@ func genC06(p *plan.Plan, r *plan.Rng, tier string) {
 				st.Doc = mutate(mutate(st.Doc, r), r)
 			}
 			p.Sessions = append(p.Sessions, one(id("d"), st))
+		case k == 8:
+			p.Sessions = append(p.Sessions, one(id("i"), ptrPrefillStep(r)))
 		case k < 11:
 			st := randUtilStep(r)
 			if r.Chance(1, 2) && len(st.Doc) > 0 {
@@ -608,5 +612,13 @@ var ptrPreDocs = []string{`{"A":7,"B":"x","C":true}`, `12`, `{"l1":5,"l2":"y","l
 // one of ten types (the document fits the pointed-to type).
 func ptrPrefillStep(r *plan.Rng) plan.Step {
 	k := r.Intn(len(ptrPreDocs))
-	return plan.Step{Op: "unmarshal", T: "Iface", V: int64(k), Doc: []byte(ptrPreDocs[k]), Opts: []string{"prefill_ptr"}}
+	v := int64(k)
+	if r.Chance(1, 3) {
+		v += int64(len(ptrPreDocs)) // the typed nil pointer of the same type
+	}
+	st := plan.Step{Op: "unmarshal", T: "Iface", V: v, Doc: []byte(ptrPreDocs[k]), Opts: []string{"prefill_ptr"}}
+	if r.Chance(1, 4) {
+		st.Doc = []byte("null")
+	}
+	return st
 }
